@@ -478,63 +478,7 @@ func checkC13(c *Ctx, r *Report) {
 	}
 
 	// (c) Retry sites
-	r.Rule("retry-bounded-by-context", "every backoff.Retry runs under backoff.WithContext(·, ctx parameter)", 4)
-	for _, rs := range c.RetrySites() {
-		pname := c.FnName(rs.Parent)
-		r.Fn(pname)
-		ok := false
-		why := "back-off is not wrapped with backoff.WithContext"
-		// the policy may be a parameter of a (generic) retry helper: then every caller's argument
-		// is judged, in the caller
-		if len(rs.Call.Call.Args) == 2 {
-			if args := c.paramArgs(rs.Call.Call.Args[1]); len(args) > 0 {
-				ok = true
-				for _, a := range args {
-					call, isCall := stripConv(a).(*ssa.Call)
-					if !isCall || !isCallTo(call, fnBackoffWithCtx) {
-						ok = false
-						continue
-					}
-					if p := ctxProvenance(call.Parent(), call.Call.Args[1]); p != "param" {
-						ok, why = false, "retry loop is bounded by "+p+", not by the caller's context"
-					}
-				}
-				r.Check(ok, pname+"|Retry(WithContext(ctx))", rs.Call.Pos(), "bounded by the context of every caller of the retry helper", why)
-				continue
-			}
-		}
-		if len(rs.Call.Call.Args) == 2 {
-			if call, isCall := stripConv(rs.Call.Call.Args[1]).(*ssa.Call); isCall && isCallTo(call, fnBackoffWithCtx) {
-				// the Retry call may sit in a helper the site's function calls with its own context
-				// (`retry(ctx, op)`): the helper's parameter is read as the argument it received
-				cv := call.Call.Args[1]
-				owner := rs.Call.Parent()
-				for i := 0; i < 4 && owner != rs.Parent; i++ {
-					prm, isPrm := stripConv(cv).(*ssa.Parameter)
-					if !isPrm || prm.Parent() != owner {
-						break
-					}
-					nv := flatOf(rs.Parent).Val(prm)
-					if nv == ssa.Value(prm) {
-						break
-					}
-					cv = nv
-					if in, isIn := nv.(ssa.Instruction); isIn {
-						owner = in.Parent()
-					} else if p2, isP := nv.(*ssa.Parameter); isP {
-						owner = p2.Parent()
-					}
-				}
-				switch p := ctxProvenance(rs.Parent, cv); p {
-				case "param":
-					ok = true
-				default:
-					why = "retry loop is bounded by " + p + ", not by the caller's context"
-				}
-			}
-		}
-		r.Check(ok, pname+"|Retry(WithContext(ctx))", rs.Call.Pos(), "bounded by the caller's context", why)
-	}
+	checkRetryBoundedByContext(c, r)
 
 	// (d) ctx threading
 	r.Rule("ctx-threading", "every call passing a context.Context passes one derived from the caller's own ctx parameter", 40)
@@ -655,6 +599,78 @@ func checkC13(c *Ctx, r *Report) {
 		}
 	}
 
+	// the SDR retrieval reports success only for a walk in which every exchange succeeded
+	// (rule shared with C14)
+	if walk, _ := c.findSDRWalk(); walk != nil {
+		checkWalkErrorsAbort(c, r, walk)
+	} else {
+		r.Rule("walk-errors-abort", "", 1)
+		r.Lost("SDR walk")
+	}
+
 	// a command whose retries were given up is a failed command (rule shared by C04, C10, C13)
 	checkRetryFailureReturned(c, r)
+}
+
+// checkRetryBoundedByContext: rule shared by C13 (no call outlives its context) and C10
+// (outside a session a lost reply is retried until *the caller's* context expires).
+func checkRetryBoundedByContext(c *Ctx, r *Report) {
+	r.Rule("retry-bounded-by-context", "every backoff.Retry runs under backoff.WithContext(·, ctx parameter)", 4)
+	for _, rs := range c.RetrySites() {
+		pname := c.FnName(rs.Parent)
+		r.Fn(pname)
+		ok := false
+		why := "back-off is not wrapped with backoff.WithContext"
+		// the policy may be a parameter of a (generic) retry helper: then every caller's argument
+		// is judged, in the caller
+		if len(rs.Call.Call.Args) == 2 {
+			if args := c.paramArgs(rs.Call.Call.Args[1]); len(args) > 0 {
+				ok = true
+				for _, a := range args {
+					call, isCall := stripConv(a).(*ssa.Call)
+					if !isCall || !isCallTo(call, fnBackoffWithCtx) {
+						ok = false
+						continue
+					}
+					if p := ctxProvenance(call.Parent(), call.Call.Args[1]); p != "param" {
+						ok, why = false, "retry loop is bounded by "+p+", not by the caller's context"
+					}
+				}
+				r.Check(ok, pname+"|Retry(WithContext(ctx))", rs.Call.Pos(), "bounded by the context of every caller of the retry helper", why)
+				continue
+			}
+		}
+		if len(rs.Call.Call.Args) == 2 {
+			if call, isCall := stripConv(rs.Call.Call.Args[1]).(*ssa.Call); isCall && isCallTo(call, fnBackoffWithCtx) {
+				// the Retry call may sit in a helper the site's function calls with its own context
+				// (`retry(ctx, op)`): the helper's parameter is read as the argument it received
+				cv := call.Call.Args[1]
+				owner := rs.Call.Parent()
+				for i := 0; i < 4 && owner != rs.Parent; i++ {
+					prm, isPrm := stripConv(cv).(*ssa.Parameter)
+					if !isPrm || prm.Parent() != owner {
+						break
+					}
+					nv := flatOf(rs.Parent).Val(prm)
+					if nv == ssa.Value(prm) {
+						break
+					}
+					cv = nv
+					if in, isIn := nv.(ssa.Instruction); isIn {
+						owner = in.Parent()
+					} else if p2, isP := nv.(*ssa.Parameter); isP {
+						owner = p2.Parent()
+					}
+				}
+				switch p := ctxProvenance(rs.Parent, cv); p {
+				case "param":
+					ok = true
+				default:
+					why = "retry loop is bounded by " + p + ", not by the caller's context"
+				}
+			}
+		}
+		r.Check(ok, pname+"|Retry(WithContext(ctx))", rs.Call.Pos(), "bounded by the caller's context", why)
+	}
+
 }
